@@ -8,8 +8,9 @@
    The variant v selects the code: v_old = builtins/find.py before the repairs F1 (find_check_cache distrusts a cache
    newer than the build file) and F2 (write_depfile writes .bfg_find_deps.tmp and renames it into place),
    v_repaired = with both.  The check detects which variant the tree under test contains and ties that one. *)
-From Coq Require Import List Bool Arith.
+From Coq Require Import List Bool Arith NArith.
 From BFG Require Import State.Crash State.CrashProofs State.CrashSafe State.CrashReconf.
+From BFG Require Import State.ExitStatus State.ExitStatusProofs.
 Import ListNotations.
 
 (* ---- the code before the repairs (documents the two repaired defects) ---- *)
@@ -199,4 +200,31 @@ Example C10_reconfigure_nonvacuous :
   filter (fun n => negb (reconf_ok v_repaired p n)) (seq 2 17) = [2; 3; 4; 5; 6; 7; 8; 9; 10; 11; 14] /\
   filter (reconf_bad v_repaired p) (seq 2 17) = [2; 3; 4; 5; 6; 7; 8; 9; 10; 11; 14] /\
   filter (fun n => negb (reconf_ok (mkV false true false) p n)) (seq 2 17) = [2; 3; 4; 5; 6; 7; 8; 9; 10; 11; 13; 14].
+Proof. vm_compute. repeat split; reflexivity. Qed.
+
+(* ---- the exit status of a failed run (driver.py; tied by W:exit_status to handle_reload_exception of the tree under test) ---- *)
+
+(* whatever exception ends a configure / a regeneration - a script that called exit with a truthy code below 256, an
+   OSError with or without an errno, anything else - the process exits with a non-zero status, so make / ninja see the
+   regeneration step fail *)
+Theorem C10_failed_run_exit_nonzero : forall e, raisable e = true -> exit_status e <> 0%N.
+Proof. exact failed_run_exit_nonzero. Qed.
+Print Assumptions C10_failed_run_exit_nonzero.
+
+(* in particular what an OSError carries (an errno, or only a message as the FileNotFoundError of a failed tool lookup)
+   does not matter *)
+Theorem C10_oserror_exit_one : forall errno, exit_status (OsErr errno) = 1%N.
+Proof. exact oserror_status_one. Qed.
+Print Assumptions C10_oserror_exit_one.
+
+(* the hypothesis on the code is needed: a script exit with a truthy code that is a multiple of 256 ends the run with
+   status 0 (finding C10-script-exit-code-multiple-of-256; replayed on the real driver by oracle:exit_status) *)
+Theorem C10_failed_run_exit_refuted_256 : exists c, truthy c = true /\ exit_status (ScriptExit c) = 0%N.
+Proof. exists (CNum 256). vm_compute. split; reflexivity. Qed.
+Print Assumptions C10_failed_run_exit_refuted_256.
+
+Example C10_exit_status_nonvacuous :
+  raisable (OsErr None) = true /\ exit_status (OsErr None) = 1%N /\ raisable (ScriptExit (CNum 3)) = true /\
+  exit_status (ScriptExit (CNum 3)) = 3%N /\ exit_status (ScriptExit (CText true)) = 1%N /\
+  raisable (ScriptExit (CNum 0)) = false /\ exit_status (ScriptExit (CNum 256)) = 0%N.
 Proof. vm_compute. repeat split; reflexivity. Qed.
